@@ -159,6 +159,11 @@ impl<Endpoint: Ord + Clone> BlockHandler<Endpoint> {
 
         match (request_block1, maybe_response_block1) {
             (Some(request_block1), Some(response_block1)) => {
+                // Block 0 starts a new body: whatever an earlier, abandoned
+                // upload left in the buffer must not leak into this one.
+                if request_block1.num == 0 {
+                    state.cached_request_payload = Some(Vec::new());
+                }
                 if state.cached_request_payload.is_none() {
                     state.cached_request_payload = Some(Vec::new());
                 }
